@@ -12,7 +12,7 @@ NOT_APPLICABLE = {
 CHECKS = {
     'C19': dict(
         level='proof',
-        technique='deductive verification: pyvc VCs (loop invariants, least-fixpoint induction, recursive contract for find_all_paths) discharged by z3 (cvc5 re-check and lean/Reach.lean in the thorough tier); find_all_reachable proved against the all-simple-paths contract with one induction lemma proved in lean/MaxPrefix.lean; bounded exhaustive cross-check of all queries',
+        technique='deductive verification: pyvc VCs (loop invariants, least-fixpoint induction, recursive contract for find_all_paths) discharged by z3 (cvc5 re-check and lean/Reach.lean in the thorough tier); find_all_reachable proved against the all-simple-paths contract with two induction lemmas proved in lean/MaxPrefix.lean and lean/SimplePath.lean; bounded exhaustive cross-check of all queries',
         text=("reachable, bi_reachable, connected, dfs/_dfs, find_all_bi_reachable, find_all_connected, none_reachable, "
               "none_connected, find_sources, find_all_paths (exactly the simple paths that extend the given prefix: sound and "
               "complete, partial correctness), find_longest_paths(+exist) are proved for all graphs and vertices against "
@@ -20,9 +20,9 @@ CHECKS = {
               "from the current source. find_all_reachable is proved to return exactly the vertices that lie on a simple path from "
               "the vertex (the union over ALL simple paths although it iterates over the maximal ones: one induction lemma -- every "
               "member of a finite list of sequences is, or is a proper prefix of, a member that is a proper prefix of no member -- "
-              "is proved in lean/MaxPrefix.lean and re-checked by lean in the thorough tier); that this set equals the "
-              "reflexive-transitive closure of the edge relation is not proved (bounded: all digraphs <= 3 vertices quick, <= 4 "
-              "thorough). Every query, proved or not, is also compared with the reference on all small digraphs in both tiers (incl. a source vertex that is an equal but not identical object), and graph_utils must keep no module-level state."),
+              "is proved in lean/MaxPrefix.lean and re-checked by lean in the thorough tier) and therefore exactly the "
+              "reflexive-transitive closure of the edge relation (second induction lemma, loop erasure: a vertex is reachable iff it "
+              "lies on a simple path from the start -- lean/SimplePath.lean). Every query, proved or not, is also compared with the reference on all small digraphs in both tiers (incl. a source vertex that is an equal but not identical object), and graph_utils must keep no module-level state."),
         note=("trusted: pyvc's Python-subset encoding, collection axioms, least-fixpoint induction schema, partial "
               "correctness (termination not proved), abstract vertex equality (identity vs equality of vertex objects is "
               "only covered by the bounded part)"),
